@@ -1235,15 +1235,20 @@ const char *config_setting_get_string(const config_setting_t *setting)
 
 int config_setting_set_string(config_setting_t *setting, const char *value)
 {
+  char *copy;
+
   if(setting->type == CONFIG_TYPE_NONE)
     setting->type = CONFIG_TYPE_STRING;
   else if(setting->type != CONFIG_TYPE_STRING)
     return(CONFIG_FALSE);
 
+  /* Copy before releasing the old value: value may be the old value itself. */
+  copy = (value == NULL) ? NULL : libconfig_strdup(value);
+
   if(setting->value.sval)
     __delete(setting->value.sval);
 
-  setting->value.sval = (value == NULL) ? NULL : libconfig_strdup(value);
+  setting->value.sval = copy;
   return(CONFIG_TRUE);
 }
 
@@ -1663,8 +1668,11 @@ void config_set_destructor(config_t *config, void (*destructor)(void *))
 
 void config_set_include_dir(config_t *config, const char *include_dir)
 {
+  /* Copy before releasing the old value: include_dir may be the old value. */
+  char *copy = (include_dir == NULL) ? NULL : libconfig_strdup(include_dir);
+
   __delete(config->include_dir);
-  config->include_dir = (include_dir == NULL) ? NULL : libconfig_strdup(include_dir);
+  config->include_dir = copy;
 }
 
 /* ------------------------------------------------------------------------- */
@@ -1699,6 +1707,8 @@ void config_setting_set_hook(config_setting_t *setting, void *hook)
 config_setting_t *config_setting_add(config_setting_t *parent,
                                      const char *name, int type)
 {
+  config_setting_t *existing, *setting;
+
   if((type < CONFIG_TYPE_NONE) || (type > CONFIG_TYPE_LIST))
     return(NULL);
 
@@ -1723,15 +1733,19 @@ config_setting_t *config_setting_add(config_setting_t *parent,
   else if(parent->type == CONFIG_TYPE_GROUP)
     return(NULL); /* members of a group must have a name */
 
-  if(config_setting_get_member(parent, name) != NULL)
-  {
-    if(config_get_option(parent->config, CONFIG_OPTION_ALLOW_OVERRIDES))
-      config_setting_remove(parent, name);
-    else
-      return(NULL); /* already exists */
-  }
+  existing = config_setting_get_member(parent, name);
+  if((existing != NULL)
+     && !config_get_option(parent->config, CONFIG_OPTION_ALLOW_OVERRIDES))
+    return(NULL); /* already exists */
 
-  return(config_setting_create(parent, name, type));
+  setting = config_setting_create(parent, name, type);
+
+  /* Remove an overridden setting only after its replacement has been created:
+   * name may be the overridden setting's own name. */
+  if((existing != NULL) && (setting != NULL))
+    config_setting_remove_elem(parent, config_setting_index(existing));
+
+  return(setting);
 }
 
 /* ------------------------------------------------------------------------- */
